@@ -168,7 +168,7 @@ func (f *faultFetcher) GetOutputs(ctx context.Context, ops []wire.OutPoint) ([]b
 			return nil, errors.New("injected output fetch fault")
 		}
 	}
-	return (&scriptedFetcher{f.tu}).GetOutputs(ctx, ops)
+	return (&scriptedFetcher{tu: f.tu}).GetOutputs(ctx, ops)
 }
 
 func (f *faultFetcher) GetTx(ctx context.Context, txid bitcoin.Hash32) (*wire.MsgTx, error) {
